@@ -59,18 +59,18 @@ pub fn enum_seq(alpha: &[&[u8]], maxlen: usize, shard: usize, nshards: usize, f:
 
 // ------------------------------------------------------------------ pools
 
-pub const LANGS: &[&str] = &["en", "de", "und", "zh", "fr", "abc", "sr", "abcde", "abcdefgh", "uz", "ar", "he", "pl", "zzzzzzzz", "aa"];
+pub const LANGS: &[&str] = &["en", "de", "und", "zh", "fr", "abc", "sr", "abcde", "abcdefgh", "uz", "ar", "he", "pl", "zzzzzzzz", "aa", "undef", "undabcde"];
 pub const SCRIPTS: &[&str] = &["Latn", "Cyrl", "Arab", "Hans", "Zzzz", "Aaaa", "Mong"];
 pub const REGIONS: &[&str] = &["US", "GB", "001", "419", "CA", "ZZ", "AA", "999", "000", "RS"];
 pub const VARIANTS: &[&str] = &[
     "valencia", "macos", "1996", "1abc", "abcde", "12345", "abcdefgh", "a1b2c", "fonipa", "0000",
     "9zzz", "zzzzzzzz", "aaaaa", "1a2b", "nedis", "12345678",
 ];
-pub const ATTRS: &[&str] = &["foo", "abc", "foobar", "abcdefgh", "123", "a1b", "true", "zzz", "aaa", "12345678", "bar"];
+pub const ATTRS: &[&str] = &["foo", "abc", "foobar", "abcdefgh", "123", "a1b", "true", "zzz", "aaa", "12345678", "bar", "truely"];
 pub const UKEYS: &[&str] = &["ca", "nu", "hc", "co", "1a", "kf", "aa", "zz", "0a", "9z", "ka", "va"];
-pub const UTYPES: &[&str] = &["buddhist", "thai", "h12", "true", "gregory", "abc", "abcdefgh", "123", "islamic", "civil", "zzz", "000"];
+pub const UTYPES: &[&str] = &["buddhist", "thai", "h12", "true", "gregory", "abc", "abcdefgh", "123", "islamic", "civil", "zzz", "000", "truex", "tru"];
 pub const TKEYS: &[&str] = &["k0", "h0", "m0", "s0", "d0", "z9", "a1", "a0", "t0", "x0", "i0"];
-pub const TVALUES: &[&str] = &["dvorak", "hybrid", "true", "abc", "12345678", "names", "prprname", "zzz", "000", "und"];
+pub const TVALUES: &[&str] = &["dvorak", "hybrid", "true", "abc", "12345678", "names", "prprname", "zzz", "000", "und", "truest"];
 pub const PRIVATE: &[&str] = &["a", "u", "t", "x", "1", "foo", "abcdefgh", "private", "en", "k0", "zz", "0", "12345678", "true"];
 
 fn rand_of(r: &mut Rng, len: usize, set: &[u8]) -> String {
@@ -431,8 +431,38 @@ pub fn mutate(input: &[u8], r: &mut Rng) -> Vec<u8> {
     let mut v = input.to_vec();
     let n = 1 + r.below(3);
     for _ in 0..n {
-        let op = r.below(12);
+        let op = r.below(16);
         match op {
+            15 => {
+                // glue two neighbouring subtags together with an alphanumeric byte (one over-long run
+                // made of two valid halves)
+                let seps: Vec<usize> = v.iter().enumerate().filter(|(_, c)| **c == b'-' || **c == b'_').map(|(i, _)| i).collect();
+                if !seps.is_empty() {
+                    let i = *r.pick(&seps);
+                    v[i] = *r.pick(ALNUM);
+                }
+            }
+            12 => {
+                // flip one bit of one byte (the neighbours of a valid byte under any masking / folding trick)
+                if !v.is_empty() {
+                    let i = r.below(v.len());
+                    v[i] ^= 1u8 << r.below(8);
+                }
+            }
+            13 => {
+                // any byte value at all
+                if !v.is_empty() {
+                    let i = r.below(v.len());
+                    v[i] = r.below(256) as u8;
+                }
+            }
+            14 => {
+                // a printable ASCII byte that is not alphanumeric ('+', '.', '~', ...)
+                if !v.is_empty() {
+                    let i = r.below(v.len());
+                    v[i] = *r.pick(b"+.,;:!?~#$%&*()=<>|^'\"\\/@[]{}` ");
+                }
+            }
             0 | 1 => {
                 if !v.is_empty() {
                     let i = r.below(v.len());
@@ -577,3 +607,20 @@ pub const SUFFIXES: &[&str] = &[
 
 // keep BTreeMap import used for callers that build maps from generator output
 pub type KwMap = BTreeMap<String, Vec<String>>;
+
+
+/// Well-formed identifiers of every shape for the byte-substitution sweep (every position x all 256 byte values).
+pub const SUBST_POOL: &[&str] = &[
+    "en",
+    "und",
+    "de-CH-1996",
+    "zh-Hans-CN",
+    "es-419",
+    "sr_Cyrl_RS_valencia",
+    "abcdefgh-Latn-419-abcdefgh-1abc",
+    "en-US-u-ca-buddhist",
+    "en-u-foo-bar-nu-thai-kf",
+    "en-t-de-Latn-AT-k0-dvorak-h0",
+    "en-x-a-12345678",
+    "fr-u-attr-ca-true-t-es-h0-hybrid-x-priv",
+];
